@@ -134,7 +134,10 @@ func load(o loadOpts) (*Loaded, error) {
 	}
 	l2, err := loadOnce(o2)
 	if err != nil {
-		return nil, fmt.Errorf("after renaming %d identifiers to the canonical vocabulary (%s): %v", len(rs.want), strings.Join(rs.notes, "; "), err)
+		// the structural guess was wrong somewhere (two candidates, a clash of names): analyse the
+		// tree under its own names rather than fail on a tree that type-checks
+		l.Renames = []string{"canonical renaming abandoned: " + strings.SplitN(err.Error(), "\n", 2)[0]}
+		return l, nil
 	}
 	l2.extra = o.extra // non-Go readers (template, assembly) see the tree's own files
 	l2.Renames = rs.notes
